@@ -68,8 +68,9 @@ class Scratch:
 
     def stg(self, stg, args, env=None, input=None, timeout=60, text=True):
         try:
-            return subprocess.run([stg] + list(args), cwd=self.path, env=self.env(env), input=input,
-                                  capture_output=True, text=text, timeout=timeout)
+            kw = {"input": input} if input is not None else {"stdin": subprocess.DEVNULL}
+            return subprocess.run([stg] + list(args), cwd=self.path, env=self.env(env),
+                                  capture_output=True, text=text, timeout=timeout, **kw)
         except subprocess.TimeoutExpired as e:
             return subprocess.CompletedProcess(e.cmd, -999, stdout="", stderr="TIMEOUT")
 
